@@ -65,8 +65,9 @@ def main():
     if os.path.exists(p):
         extra = json.load(open(p))
     claimed = dict(CLAIMED)
-    for k, v in extra.get("claimed", {}).items():
-        claimed[k] = tuple(v)
+    for key in ("claimed", "claimed_more"):
+        for k, v in extra.get(key, {}).items():
+            claimed[k] = tuple(v)
     na = extra.get("not_applicable", {})
     checks = []
     for pid in props:
